@@ -22,7 +22,7 @@ NextAfter(w, r) == CHOOSE x \in (r + 1)..(r + 7) : IsoWeekday(x) = w
 FirstOfNextMonth(y, m) == LET n == ShiftMonth(y, m, 1) IN DateStr(n[1], n[2], 1)
 
 ResolveCases ==
-  { [k |-> "weekday", timex |-> "XXXX-WXX-" \o ToString(t[1]), w |-> t[1], ref |-> t[2]] : t \in (1..7) \X RefDays }
+  { [k |-> "weekday", timex |-> "XXXX-WXX-" \o ToString(t[1]), w |-> t[1], ref |-> t[2], rt |-> t[3]] : t \in (1..7) \X RefDays \X {0, 1} }   \* rt: time of day of the reference (midnight / 15:30)
   \cup { [k |-> "duration", timex |-> "P" \o t[1] \o t[2], amount |-> t[1], secs |-> UnitSeconds(t[2], FALSE)] : t \in DurAmounts \X {"Y", "M", "W", "D"} }
   \cup { [k |-> "duration", timex |-> "PT" \o t[1] \o t[2], amount |-> t[1], secs |-> UnitSeconds(t[2], TRUE)] : t \in DurAmounts \X {"H", "M", "S"} }
   \cup { [k |-> "year", timex |-> Pad4(y), y |-> y] : y \in RangeYears }
@@ -30,7 +30,7 @@ ResolveCases ==
   \cup { [k |-> "month", timex |-> "XXXX-" \o Pad2(t[1]), m |-> t[1], ref |-> t[2]] : t \in (1..12) \X {r \in RefDays : r % 5 = 0} }
 
 RefOf(c) == IF Has(c, "ref") THEN c.ref ELSE 737000
-RefStr(c) == OrdStr(RefOf(c)) \o "T00:00:00"
+RefStr(c) == OrdStr(RefOf(c)) \o (IF Has(c, "rt") /\ c.rt = 1 THEN "T15:30:00" ELSE "T00:00:00")
 
 ValueNum(v) == IF Has(v, "value") /\ IsDecimal(v.value) THEN DecNorm(v.value) ELSE <<"?", "?">>
 
@@ -79,7 +79,13 @@ Cands ==
   \cup { [k |-> "wdt", text |-> "XXXX-WXX-" \o ToString(t[1]) \o TimeText(t[2]), w |-> t[1], secs |-> t[2][1] * 3600 + t[2][2] * 60 + t[2][3]] : t \in {3, 7} \X {x \in Times : x[2] = 0} }
   \cup { [k |-> "dur", text |-> "P2D"], [k |-> "dur", text |-> "PT3H"] }
 
-DateRangeText(r) == "(" \o OrdStr(r[1]) \o "," \o OrdStr(r[2]) \o ",P" \o ToString(r[2] - r[1]) \o "D)"
+(* the duration of a range constraint in its most natural unit: whole years, whole months (same day of the month), whole
+   weeks, else days; the resolver derives the end of the range from start + duration, so every unit is a path of its own *)
+RangeDur(r) == LET a == FromOrdinal(r[1]) b == FromOrdinal(r[2]) mon == (b[1] * 12 + b[2]) - (a[1] * 12 + a[2]) IN
+               IF a[3] = b[3] /\ mon > 0 THEN (IF mon % 12 = 0 THEN ToString(mon \div 12) \o "Y" ELSE ToString(mon) \o "M")
+               ELSE IF (r[2] - r[1]) % 7 = 0 THEN ToString((r[2] - r[1]) \div 7) \o "W"
+               ELSE ToString(r[2] - r[1]) \o "D"
+DateRangeText(r) == "(" \o OrdStr(r[1]) \o "," \o OrdStr(r[2]) \o ",P" \o RangeDur(r) \o ")"
 TimeRangeText(r) == "(T" \o Pad2(r[1]) \o ",T" \o Pad2(r[2]) \o ",PT" \o ToString(r[2] - r[1]) \o "H)"
 
 SubsetsUpTo(S, lo, hi) == { X \in SUBSET S : Cardinality(X) >= lo /\ Cardinality(X) <= hi }
